@@ -14,12 +14,14 @@ iterable (or start, end), the condition.
 -/
 namespace AasVerif.Expr
 
+variable {κ : Type} [DecidableEq κ]
+
 def resTy {α : Type} : Res α → Option α
   | .ok τ => some τ
   | _ => none
 
 mutual
-  def tmap (key : Expr → Text) (Γ : TEnv) (F : Facts) : Expr → List (Option Ty)
+  def tmap (key : Expr → κ) (Γ : TEnv) (F : Facts κ) : Expr → List (Option Ty)
     | .member i n => resTy (infer key Γ F (.member i n)) :: tmap key Γ F i
     | .index c i => resTy (infer key Γ F (.index c i)) :: (tmap key Γ F c ++ tmap key Γ F i)
     | .cmp l op r => resTy (infer key Γ F (.cmp l op r)) :: (tmap key Γ F l ++ tmap key Γ F r)
@@ -51,22 +53,22 @@ mutual
         match inferGen key Γ F g with
         | .ok (x, τx) => tmap key (Γ.bind x τx) F c
         | _ => [])
-  def tmapGen (key : Expr → Text) (Γ : TEnv) (F : Facts) : Gen → List (Option Ty)
+  def tmapGen (key : Expr → κ) (Γ : TEnv) (F : Facts κ) : Gen → List (Option Ty)
     | .forEach x it =>
       some (.prim .none) :: (resTy (inferGen key Γ F (.forEach x it))).map (·.2) :: tmap key Γ F it
     | .forRange x a b =>
       some (.prim .none) :: (resTy (inferGen key Γ F (.forRange x a b))).map (·.2)
         :: (tmap key Γ F a ++ tmap key Γ F b)
-  def tmapList (key : Expr → Text) (Γ : TEnv) (F : Facts) : List Expr → List (Option Ty)
+  def tmapList (key : Expr → κ) (Γ : TEnv) (F : Facts κ) : List Expr → List (Option Ty)
     | [] => []
     | e :: es => tmap key Γ F e ++ tmapList key Γ F es
-  def tmapAnd (key : Expr → Text) (Γ : TEnv) (F : Facts) : List Expr → List (Option Ty)
+  def tmapAnd (key : Expr → κ) (Γ : TEnv) (F : Facts κ) : List Expr → List (Option Ty)
     | [] => []
     | e :: es => tmap key Γ F e ++ tmapAnd key Γ (andFact key F e) es
-  def tmapOr (key : Expr → Text) (Γ : TEnv) (F : Facts) : List Expr → List (Option Ty)
+  def tmapOr (key : Expr → κ) (Γ : TEnv) (F : Facts κ) : List Expr → List (Option Ty)
     | [] => []
     | e :: es => tmap key Γ F e ++ tmapOr key Γ (orFact key F e) es
-  def tmapParts (key : Expr → Text) (Γ : TEnv) (F : Facts) : List JPart → List (Option Ty)
+  def tmapParts (key : Expr → κ) (Γ : TEnv) (F : Facts κ) : List JPart → List (Option Ty)
     | [] => []
     | .lit _ :: ps => tmapParts key Γ F ps
     | .fv e :: ps => some (.prim .str) :: (tmap key Γ F e ++ tmapParts key Γ F ps)
